@@ -182,6 +182,25 @@ def _validate_fixed_indices(
             msg = f"Axis `{reduced_str}` in `{name}` is reduced and cannot be in `fixed_indices`."
             raise ValueError(msg)
 
+    # An axis that no MapSpec has among its input indices exists only as an internal axis
+    # (generated inside a function, see `internal_shape`): all its elements are produced by
+    # one function call, `_mask_fixed_axes` selects on external axes only, and the index
+    # would be silently ignored (even when it is out of range).
+    mapped_over = {
+        index
+        for func in pipeline.functions
+        if func.mapspec is not None
+        for index in func.mapspec.input_indices
+    }
+    if internal := set(fixed_indices) - mapped_over:
+        internal_str = ", ".join(sorted(internal))
+        msg = (
+            f"Axis `{internal_str}` is an internal axis (generated inside a function,"
+            " see `internal_shape`) that no function maps over; its elements cannot"
+            " be selected and it cannot be in `fixed_indices`."
+        )
+        raise ValueError(msg)
+
 
 def _reduced_axes(pipeline: Pipeline) -> dict[str, set[str]]:
     # TODO: check the overlap between this an `independent_axes_in_mapspecs`.
